@@ -30,9 +30,26 @@ LogBegin(k, seq, level, plen, sl, on) ==
     /\ UNCHANGED <<mode, filter, closed>>
 
 (* a well-formed line: prefix with the whole subject name, complete message, one trailing newline, no NUL *)
+(* the timestamp of the prefix, as text, has the shape of the date format the logger (or the direct formatter call) was  *)
+(* configured with: ISO 8601 "2026-09-27T14:18:33Z" or RFC 822 "Sun, 27 Sep 2026 14:18:33 GMT" (which instant it shows *)
+(* is the business of C19; that it is the right format for THIS logger is part of a well-formed line)               *)
+Dig(c) == c >= 48 /\ c <= 57
+Let(c) == (c >= 65 /\ c <= 90) \/ (c >= 97 /\ c <= 122)
+TsShape(ts, f) ==
+    IF f = "rfc"
+    THEN /\ Len(ts) = 29
+         /\ \A i \in {1, 2, 3, 9, 10, 11} : Let(ts[i])
+         /\ \A i \in {6, 7, 13, 14, 15, 16, 18, 19, 21, 22, 24, 25} : Dig(ts[i])
+         /\ ts[4] = 44 /\ \A i \in {5, 8, 12, 17, 26} : ts[i] = 32
+         /\ ts[20] = 58 /\ ts[23] = 58 /\ ts[27] = 71 /\ ts[28] = 77 /\ ts[29] = 84
+    ELSE /\ Len(ts) = 20
+         /\ \A i \in {1, 2, 3, 4, 6, 7, 9, 10, 12, 13, 15, 16, 18, 19} : Dig(ts[i])
+         /\ ts[5] = 45 /\ ts[8] = 45 /\ ts[11] = 84 /\ ts[14] = 58 /\ ts[17] = 58 /\ ts[20] = 90
+
 WellFormed(ev, level, plen, sl) ==
     /\ ev.prefix = 1 /\ ev.lvl = level /\ ev.complete = 1 /\ ev.paylen = plen /\ ev.slen = sl
     /\ ev.nl = 1 /\ ev.endsnl = 1 /\ ev.nul = 0
+    /\ TsShape(ev.ts, ev.dfmt)
 
 (* the writer receives a line: it is the oldest undelivered accepted line of its producer *)
 Write(ev) ==
@@ -63,6 +80,6 @@ FixedBufferLine(ev, total, level, plen, sl) ==
     /\ ev.len <= total
     /\ ev.endsnl = 1 /\ ev.nl = 1 /\ ev.nul = 0
     /\ (ev.lvl = level \/ (ev.complete = 0 /\ ev.len < 12))     \* a line cut inside the level tag shows no level
-    /\ IF ev.complete = 1 THEN ev.paylen = plen /\ ev.prefix = 1 /\ ev.slen = sl
+    /\ IF ev.complete = 1 THEN ev.paylen = plen /\ ev.prefix = 1 /\ ev.slen = sl /\ TsShape(ev.ts, ev.dfmt)
        ELSE ev.len >= total - 1                                             \* cut only because the buffer is full
 =============================================================================
